@@ -770,6 +770,8 @@ def _guarded(call, expo):
         t0, x0 = t.copy(), x.copy()
         out = call(t, x)
         if not (np.array_equal(t, t0) and np.array_equal(x, x0)):
+            t[...] = t0  # (restored, so that the entries evaluated next on this path are judged on the path itself)
+            x[...] = x0
             raise _CallerArrayModified()
         return out
 
@@ -1478,6 +1480,7 @@ PRICER_VECTOR_FORMS = ("list", "tuple", "list-of-np.float64", "float64-array")  
 SCALAR_FORMS = ("float", "np.float64", "0-d-array", "int", "np.int64")
 MUTABLE_FORMS = ("list", "list-of-np.float64", "float64-array", "int-list", "int64-array")
 FORM_RTOL = 16 * np.finfo(float).eps  # a vectorised and a scalar evaluation of the same expression
+BRENTQ_ATOL = 1e-11  # roots of the same function from the same bracket: a few times brentq's default xtol (2e-12)
 
 
 def _container(form, values):
@@ -1719,7 +1722,7 @@ def _forms_pricer_1d(sh, case, obs):
                 _same(sh, obs, key("cds_spread"), f"cds_spread({x!r}, R)", [cf.cds_spread(x, y) for y in RECOVERIES], cs, detail={"a": a})
                 if pv is not None:
                     _same(sh, obs, key("implied_cds_spread"), f"implied_cds_spread(pv, {x!r}, R, T)", cf.implied_cds_spread(pv, x, R, T), si,
-                          atol=1e-13, detail={"a": a})
+                          atol=BRENTQ_ATOL, detail={"a": a})
                 for sym, ref in grids.items():
                     sh.count("evaluations")
                     got = _axes_of(S.CTMCCredit(h=h, level_a=x, model=model, symmetric_grid=sym))
@@ -1756,11 +1759,11 @@ def _forms_pricer_1d(sh, case, obs):
             if pv is not None:
                 for nm, v in (("np.float64", np.float64(pv)), ("0-d-array", np.array(pv))):
                     _same(sh, obs, key("implied_cds_spread", "pv-as-" + nm), f"implied_cds_spread({nm} pv, int T)",
-                          cf.implied_cds_spread(pv=v, level_a=a, recovery_rate=np.float64(R), maturity=int(T)), si, atol=1e-13, detail={"a": a})
+                          cf.implied_cds_spread(pv=v, level_a=a, recovery_rate=np.float64(R), maturity=int(T)), si, atol=BRENTQ_ATOL, detail={"a": a})
             if inside and cs[-1] > 0.0:
                 ai = float(cf.implied_cds_threshold(cds_spread=cs[-1], recovery_rate=R, h0=1e-6))
                 _same(sh, obs, key("implied_cds_threshold", "spread-as-np.float64"), "implied_cds_threshold(np.float64 spread)",
-                      cf.implied_cds_threshold(np.float64(cs[-1]), np.float64(R), np.float64(1e-6)), ai, atol=1e-13, detail={"a": a})
+                      cf.implied_cds_threshold(np.float64(cs[-1]), np.float64(R), np.float64(1e-6)), ai, atol=BRENTQ_ATOL, detail={"a": a})
         except Exception as e:
             sh.violation(f"C19:forms:CFLevyModel:raises-{type(e).__name__}:other-arguments:{icls}", f"{type(e).__name__}: {e}", {"a": a})
 
@@ -1824,7 +1827,7 @@ def _forms_pricer_copula(sh, case, obs):
                       cf.first_to_default_par_spread(buf, np.array(RECOVERIES)), ref["first_to_default_par_spread"], detail={"a": a})
                 if r is not None:
                     _same(sh, obs, key("implied_cds_spread"), f"implied_cds_spread(np.float64 pv, {buf!r}, R, int T)",
-                          cf.implied_cds_spread(np.float64(ref["pv"]), buf, R, int(T)), ref["implied_cds_spread"], atol=1e-13, detail={"a": a})
+                          cf.implied_cds_spread(np.float64(ref["pv"]), buf, R, int(T)), ref["implied_cds_spread"], atol=BRENTQ_ATOL, detail={"a": a})
                 for sym, gref in ref["grids"].items():
                     g = S.CTMCCredit(h=h, level_a=buf, model=model, symmetric_grid=sym)
                     kept.append((g, gref, sym, list(a)))
